@@ -288,6 +288,16 @@ class Report:
             f"cd /verif/coq && coq_makefile -f _CoqProject -o Makefile && make {vfile}o "
             f"&& coqc Print Assumptions on every Theorem of {vfile}"
         )
+        # translator-tied files are regenerated from /repo's working tree on every run
+        try:
+            from translate import all as translate_all
+            with BuildLock():
+                translate_all.run_all()
+        except Exception as e:  # fail-closed translators: syntax outside their grammar
+            self.coverage["discharged"] = 0
+            self.coverage["translator_error"] = f"{type(e).__name__}: {e}"
+            self.broken = ("translator " + type(e).__name__, str(e))
+            return False
         bad = audit_sources()
         if bad:
             self.coverage["discharged"] = 0
